@@ -62,6 +62,9 @@ func runC18(s *kernel.Sim, _ string) {
 	defer sv.shutdown()
 
 	burst := t.Range(1, 20, "burst")
+	// Now and then another connection comes first: it sends as many queries
+	// as the limit allows and goes away while they are being processed.
+	gone := t.Chance(1, 3, "connection-gone-with-queries-in-flight")
 	s.Logf("pipeline limit %d, burst %d, handler hold %v, request timeout %v", limit, burst, hold, reqTimeout)
 
 	r := &runner{s: s}
@@ -71,6 +74,30 @@ func runC18(s *kernel.Sim, _ string) {
 	}{{"tcp", addrDNS, nil}, {"dot", addrDoT, clientTLS("dns.sim.test")}} {
 		x := x
 		r.spawn("c18-"+x.tr, func(tk *task) {
+			if gone {
+				var first []byte
+				for i := 0; i < limit; i++ {
+					m := &dns.Msg{}
+					m.SetQuestion(fmt.Sprintf("g%d.burst.test.", i), dns.TypeA)
+					m.Id = uint16(300 + i)
+					raw, _ := m.Pack()
+					first = append(first, withPrefix(raw)...)
+				}
+				if c, err := n.Dial(x.addr, n.ClientAddr(clientIP(3))); err == nil {
+					var conn net.Conn = c
+					if x.tc != nil {
+						tconn := tls.Client(c, x.tc)
+						if tconn.Handshake() == nil {
+							conn = tconn
+						}
+					}
+					_, _ = conn.Write(first)
+					time.Sleep(20 * time.Millisecond)
+					_ = conn.Close()
+					tk.Probe("connection-gone-with-queries-in-flight")
+				}
+				time.Sleep(30 * time.Millisecond)
+			}
 			var all []byte
 			for i := 0; i < burst; i++ {
 				m := &dns.Msg{}
